@@ -329,6 +329,41 @@ def run(ck: Check) -> int:
         finally:
             shutil.rmtree(tmp, ignore_errors=True)
     ck.search('walker-case-rule', s_walker_case)
+
+    def s_fn_seps(sr):
+        # Windows rules in fnmatch mode: `/` and `\\` in the NAME are interchangeable for every pattern, an escaped backslash inside a bracket
+        # included (added after seeded change C17k: `[\\\\]` emitted `[\\\\]` instead of `[\\\\/]` in the non-pathname Windows case)
+        pats = ['a[\\\\]b', 'a[!\\\\]b', '[\\\\]', 'a[x\\\\]b', 'a[\\\\/]b', 'a\\\\b', 'a/b', 'a?b', 'a*b', '@(a[\\\\]b|c)', 'a[\\\\]', '[\\\\]b', '*[\\\\]*', 'a[/]b', 'a[!/]b']
+        names = ['a/b', 'a\\b', 'axb', '/', '\\', 'a/', 'a\\', '/b', '\\b', 'x/y/z', 'x\\y/z', 'c', 'ab']
+        sr.note = (f'{len(pats)} patterns (brackets holding an escaped backslash, plain and negated; escaped and written separators) x {len(names)} names: under '
+                   'FORCEWIN (± EXTMATCH, IGNORECASE, CASE; str and bytes) fnmatch / filter / compile answer the same for a name and for the name with its '
+                   'separators swapped')
+
+        def swap(n):
+            return ''.join({'/': '\\', '\\': '/'}.get(ch, ch) for ch in n)
+        for p_ in pats:
+            for extra in (0, F.EXTMATCH, F.EXTMATCH | F.CASE, F.IGNORECASE):
+                for isb in (False, True):
+                    cv = (lambda z: z.encode('latin-1')) if isb else (lambda z: z)
+                    fl = F.FORCEWIN | extra
+                    m_ = F.compile(cv(p_), flags=fl)
+                    for n in names:
+                        sr.evaluations += 1
+                        a, b = bool(m_.match(cv(n))), bool(m_.match(cv(swap(n))))
+                        c_ = bool(F.fnmatch(cv(n), cv(p_), flags=fl))
+                        if a != b or a != c_:
+                            import re as _re
+                            # KF-D39: a BARE `/` inside a bracket is copied as it is outside path mode (only the escaped separators know the
+                            # Windows class): signature = the pattern has a bracket with an unescaped `/` and the two names differ at a separator
+                            kid = 'KF-D39' if (a != b and _re.search(r'\[[^\]]*(?<!\\)/[^\]]*\]', p_.replace('\\\\', '')) is not None) else None
+                            ck.report(Failing(f'fnmatch mode under FORCEWIN: pattern {p_!r} tells {n!r} from {swap(n)!r} (separators swapped)' if a != b else
+                                              f'fnmatch and compile().match differ for {p_!r} on {n!r}',
+                                              {'api': 'fnmatch', 'pattern': p_, 'name': n, 'flags': fl, 'bytes': isb}, a, b if a != b else c_), kid)
+                            sr.histogram[kid or 'FAIL'] = sr.histogram.get(kid or 'FAIL', 0) + 1
+                        else:
+                            sr.histogram['holds'] = sr.histogram.get('holds', 0) + 1
+        sr.distinct = len(pats) * 8
+    ck.search('fnmatch-forcewin-separators-interchangeable', s_fn_seps)
     if drv:
         drv.close()
     return ck.finish()
